@@ -31,6 +31,9 @@ func ctlJobs(tier string) []Job {
 						if capa == 4 && c != "close" {
 							continue // the third capacity only for the plain Close program
 						}
+						if capa == 1 && (h == "unmount" || h == "fresh" || h == "movein") && c != "close" {
+							continue // the three newest histories with the default capacity (so that the bounded pass finishes within the tier's budget)
+						}
 						// bound 2 everywhere; revisits of a global state with no fewer preemptions are cut (state-key
 						// pruning: the oracles of C05/C06/C13 are end-state and per-thread, which is what the key preserves)
 						jobs = append(jobs, Job{Family: "ctl", Bound: 2, Prune: true,
